@@ -244,21 +244,25 @@ impl StringDecoder for Unreal2StringDecoder {
 
             result
         } else {
-            // Else the string is null-delimited latin1
+            // Else the string is latin1: `length` bytes follow the length byte, normally
+            // ending with a null delimiter that is included in the length.
+            start += 1;
+
+            let string_data = data
+                .get(start .. start + length)
+                .ok_or_else(|| PacketBad.context("Not enough data in buffer to read string"))?;
 
             // TODO: Replace this with delimiter finder helper
-            let position = data
+            let position = string_data
             // Create an iterator over the data.
                 .iter()
                 // Find the position of the delimiter
                 .position(|&b| b == delimiter.as_ref()[0])
-                // If the delimiter is not found, use the whole data slice.
-                .unwrap_or(data.len());
-
-            length = position + 1;
+                // If the delimiter is not found, use the whole string.
+                .unwrap_or(string_data.len());
 
             // Decode as latin1
-            let (result, _, invalid_sequences) = WINDOWS_1252.decode(&data[0 .. position]);
+            let (result, _, invalid_sequences) = WINDOWS_1252.decode(&string_data[.. position]);
 
             if invalid_sequences {
                 return Err(PacketBad.context("latin1 string contained invalid character(s)"));
